@@ -562,6 +562,14 @@ class BlockMessageMethodSetByteItem(BlockMessageMethodGetSetByteItemBase):
             assign = "="
             type_name = "bool"
             shift = ""
+        if isinstance(single, Enum):
+            # The byte is only a part of the enum's value, which isn't an enum member
+            # in general, collect the bytes as integers.
+            type_name = "int"
+            if self.array_depth == 0 and isinstance(self.d.type, Enum):
+                # Write to the integer proxy of this enum field directly, the property
+                # getter would construct an enum member from a partial value.
+                left = f"self.{_enum_field_proxy_prefix}{self.message_field_name}"
         if isinstance(single, Int):
             # Cast to signed-int if overflows
             # Python dosen't have a type for int8, int16..
